@@ -57,6 +57,12 @@ theorem handles_count (st : Nat → St) (cs : List Nat) (rev : Bool) (i : Nat) :
   · rw [List.count_reverse]; exact (collect_spec cs st i).2
   · exact (collect_spec cs st i).2
 
+@[simp] theorem jobIds_nil : jobIds [] = [] := rfl
+@[simp] theorem jobIds_snoc (js : List (List Nat × Bool)) (hs : List Nat) (k : Bool) :
+    jobIds (js ++ [(hs, k)]) = jobIds js ++ hs := by simp [jobIds, List.flatMap_append]
+@[simp] theorem jobIds_cons (js : List (List Nat × Bool)) (hs : List Nat) (k : Bool) :
+    jobIds ((hs, k) :: js) = hs ++ jobIds js := by simp [jobIds, List.flatMap_cons]
+
 def PrevOK : List Bool → Prop
   | [] => True
   | p :: bs => p = !bs.isEmpty ∧ PrevOK bs
@@ -65,15 +71,17 @@ def PrevOK : List Bool → Prop
 structure Core (s : State) : Prop where
   /-- FIFO: taken-so-far ++ queue = appended-so-far -/
   fifo : s.enq = s.deq ++ s.ready
-  /-- the handle of a coroutine exists iff its status is `ready`, and then exactly once, in the ready queue or
-  in the `suspend_now` loop of ordinary code -/
-  handle_once : ∀ i, s.ready.count i + (loopIds s.base).count i = if s.st i = St.ready then 1 else 0
+  /-- the handle of a coroutine exists iff its status is `ready`, and then exactly once: in the ready queue, in
+  the `suspend_now` loop of ordinary code, or in a job handed to another thread -/
+  handle_once : ∀ i, s.ready.count i + (loopIds s.base).count i + (jobIds s.jobs).count i
+      = if s.st i = St.ready then 1 else 0
   /-- a coroutine is blocked in a nested `start()` iff its status is `stacked`, and then exactly once -/
   stacked_once : ∀ i, s.calls.count i = if s.st i = St.stacked then 1 else 0
   /-- whoever is registered as the awaiter of `d` is suspended on `d` (hence on nothing else) -/
   waiter_ok : ∀ d p, s.waiter d = some p → s.st p = St.waiting d
   /-- made ready = resumed + pending, per coroutine -/
   once : ∀ i, s.made.count i = s.runs.count i + s.ready.count i + (loopIds s.base).count i
+      + (jobIds s.jobs).count i
   /-- `instance != nullptr` iff a block is open or an activation is pending -/
   active_iff : s.active = true ↔ (s.blocks ≠ [] ∨ s.base ≠ none)
   /-- every saved `prev` says whether an enclosing block exists -/
@@ -318,7 +326,8 @@ theorem inv_coPause (s : State) (c : Nat) (h : Inv s) (hc : s.cur = some c) : In
     · intro i; have := h.running_iff i; simp only [hq, List.count_cons] at *; grind [upd_apply]
     · have := h.cur_base; grind
 
-theorem inv_coStart (s : State) (c d : Nat) (h : Inv s) (hc : s.cur = some c) : Inv (coStart s c d) := by
+theorem inv_coStart (s : State) (c d : Nat) (fut : Bool) (h : Inv s) (hc : s.cur = some c) :
+    Inv (coStart s c d fut) := by
   obtain ⟨hr, hb, ha⟩ := cur_facts h hc
   unfold coStart
   split
@@ -417,6 +426,100 @@ theorem inv_coFin (s : State) (c : Nat) (h : Inv s) (hc : s.cur = some c) : Inv 
     · intro i; have := h.running_iff i; grind [upd_apply]
     · have := h.cur_base; grind
   next hp => exact inv_settle _ (mid_suspend s c St.done h hc (by simp) (by simp) (by simp))
+
+theorem inv_postJob (s : State) (cs : List Nat) (rev : Bool) (h : Inv s) : Inv (postJob s cs rev) := by
+  unfold postJob
+  split
+  next => exact h
+  next hne =>
+    have hst := fun i => (collect_spec cs s.st i).1
+    have hcnt := handles_count s.st cs rev
+    generalize (collect s.st cs).1 = st' at hst
+    generalize handles s.st cs rev = hs at hcnt
+    refine ⟨⟨?_, ?_, ?_, ?_, ?_, ?_, ?_, ?_, ?_, ?_, ?_⟩, ?_, ?_⟩ <;> dsimp only
+    · exact h.fifo
+    · intro i
+      have := h.handle_once i; have := hst i; have := hcnt i
+      simp only [jobIds_snoc, List.count_append]
+      unfold Hit at *
+      grind [wakeable]
+    · intro i
+      have := h.stacked_once i; have := hst i
+      unfold Hit at *
+      grind [wakeable]
+    · intro d p hw
+      have := h.waiter_ok d p hw; have := hst p
+      unfold Hit at *
+      grind [wakeable]
+    · intro i
+      have := h.once i; have := hcnt i
+      simp only [jobIds_snoc, List.count_append]
+      omega
+    · exact h.active_iff
+    · exact h.blocks_prev
+    · exact h.loop_prev
+    · exact h.callmain_block
+    · exact h.calls_base
+    · exact h.idle
+    · intro i
+      have := h.running_iff i; have := hst i
+      unfold Hit at *
+      grind [wakeable]
+    · exact h.cur_base
+
+theorem inv_wakePar (s : State) (d : Nat) (h : Inv s) : Inv (wakePar s d) := by
+  unfold wakePar
+  split
+  next hd =>
+    refine ⟨⟨?_, ?_, ?_, ?_, ?_, ?_, ?_, ?_, ?_, ?_, ?_⟩, ?_, ?_⟩ <;> dsimp only
+    · exact h.fifo
+    · intro i; have := h.handle_once i
+      simp only [jobIds_snoc, List.count_append, List.count_singleton] at *; grind [upd_apply]
+    · intro i; have := h.stacked_once i; grind [upd_apply]
+    · intro e p hw; have := h.waiter_ok e p hw; grind [upd_apply]
+    · intro i; have := h.once i
+      simp only [jobIds_snoc, List.count_append, List.count_singleton] at *; grind
+    · exact h.active_iff
+    · exact h.blocks_prev
+    · exact h.loop_prev
+    · exact h.callmain_block
+    · exact h.calls_base
+    · exact h.idle
+    · intro i; have := h.running_iff i; grind [upd_apply]
+    · exact h.cur_base
+  next => exact h
+
+theorem inv_coParkPar (s : State) (c : Nat) (h : Inv s) (hc : s.cur = some c) : Inv (coParkPar s c) :=
+  inv_settle _ (mid_suspend s c St.pparked h hc (by simp) (by simp) (by simp))
+
+theorem mid_coHop (s : State) (c : Nat) (h : Inv s) (hc : s.cur = some c) :
+    Mid { s with st := upd s.st c St.ready, jobs := s.jobs ++ [([c], true)], made := s.made ++ [c] } := by
+  obtain ⟨hr, hb, ha⟩ := cur_facts h hc
+  refine ⟨⟨?_, ?_, ?_, ?_, ?_, ?_, ?_, ?_, ?_, ?_, ?_⟩, ?_, ?_⟩ <;> dsimp only
+  · exact h.fifo
+  · intro i; have := h.handle_once i
+    simp only [jobIds_snoc, List.count_append, List.count_singleton] at *; grind [upd_apply]
+  · intro i; have := h.stacked_once i; grind [upd_apply]
+  · intro d p hw; have := h.waiter_ok d p hw; grind [upd_apply]
+  · intro i; have := h.once i
+    simp only [jobIds_snoc, List.count_append, List.count_singleton] at *; grind
+  · exact h.active_iff
+  · exact h.blocks_prev
+  · exact h.loop_prev
+  · exact h.callmain_block
+  · exact h.calls_base
+  · exact h.idle
+  · intro i; have := h.running_iff i; grind [upd_apply]
+  · exact hb
+
+theorem inv_coHop (s : State) (c : Nat) (h : Inv s) (hc : s.cur = some c) : Inv (coHop s c) :=
+  inv_settle _ (mid_coHop s c h hc)
+
+theorem inv_coHopCur (s : State) (c : Nat) (h : Inv s) (hc : s.cur = some c) : Inv (coHopCur s c) := by
+  unfold coHopCur
+  split
+  · exact inv_coHop s c h hc
+  · exact h
 
 theorem getLast_split {α} (hs : List α) (out : α) (h : hs.getLast? = some out) : hs = hs.dropLast ++ [out] := by
   obtain ⟨ys, rfl⟩ := List.getLast?_eq_some_iff.1 h
@@ -634,6 +737,38 @@ theorem inv_mainLeave (s : State) (h : Inv s) (hc : s.cur = none) : Inv (mainLea
   next p bs hbl => exact inv_settle _ (mid_mainLeave s p bs h hc hbl)
   next => exact h
 
+theorem mid_mainJob (s : State) (hs : List Nat) (k : Bool) (js : List (List Nat × Bool)) (h : Inv s)
+    (hc : s.cur = none) (hidle : s.active = false ∧ s.blocks = []) (hj : s.jobs = (hs, k) :: js) :
+    Mid { s with jobs := js, active := true, base := some (Base.loop hs s.active), worker := k } := by
+  obtain ⟨hb, hcl, hnr, hab⟩ := main_facts h hc
+  obtain ⟨haf, hbl⟩ := hidle
+  have hrd := h.idle hbl hb
+  refine ⟨⟨?_, ?_, ?_, ?_, ?_, ?_, ?_, ?_, ?_, ?_, ?_⟩, ?_, ?_⟩ <;> dsimp only
+  · exact h.fifo
+  · intro i; have := h.handle_once i
+    simp only [hj, hb, hrd, loopIds, jobIds_cons, List.count_append, List.count_nil] at *; omega
+  · exact h.stacked_once
+  · exact h.waiter_ok
+  · intro i; have := h.once i
+    simp only [hj, hb, hrd, loopIds, jobIds_cons, List.count_append, List.count_nil] at *; omega
+  · simp
+  · exact h.blocks_prev
+  · intro l p hh; cases hh; simp [haf, hbl]
+  · intro hh; cases hh
+  · intro hh; cases hh
+  · intro _ hh; cases hh
+  · exact hnr
+  · simp
+
+theorem inv_mainJob (s : State) (h : Inv s) (hc : s.cur = none) : Inv (mainJob s) := by
+  unfold mainJob
+  split
+  next hidle =>
+    split
+    next hs k js hj => exact inv_settle _ (mid_mainJob s hs k js h hc hidle hj)
+    next => exact h
+  next => exact h
+
 theorem inv_step (s : State) (a : Act) (h : Inv s) : Inv (step s a) := by
   unfold step
   split
@@ -644,10 +779,16 @@ theorem inv_step (s : State) (a : Act) (h : Inv s) : Inv (step s a) := by
       cases m with
       | discard => exact inv_enqueue s cs rev h ha
       | await => exact inv_coAwaitSp s c cs rev h hc
+      | par => exact inv_postJob s cs rev h
+    | parkPar => exact inv_coParkPar s c h hc
+    | wakePar d => exact inv_wakePar s d h
+    | hop => exact inv_coHop s c h hc
+    | hopCur => exact inv_coHopCur s c h hc
+    | job => exact h
     | park => exact inv_coPark s c h hc
     | parkNext => exact inv_coParkNext s c h hc
     | pause => exact inv_coPause s c h hc
-    | start d => exact inv_coStart s c d h hc
+    | start d fut => exact inv_coStart s c d fut h hc
     | call d => exact inv_coCall s c d h hc
     | join d => exact inv_coJoin s c d h hc
     | fin => exact inv_coFin s c h hc
@@ -655,8 +796,17 @@ theorem inv_step (s : State) (a : Act) (h : Inv s) : Inv (step s a) := by
     | leave => exact h
   next hc =>
     cases a with
-    | wake cs m rev => exact inv_mainWake s cs rev h hc
-    | start d => exact inv_mainStart s d h hc
+    | wake cs m rev =>
+      cases m with
+      | discard => exact inv_mainWake s cs rev h hc
+      | await => exact inv_mainWake s cs rev h hc
+      | par => exact inv_postJob s cs rev h
+    | wakePar d => exact inv_wakePar s d h
+    | job => exact inv_mainJob s h hc
+    | parkPar => exact h
+    | hop => exact h
+    | hopCur => exact h
+    | start d fut => exact inv_mainStart s d h hc
     | enter => exact inv_mainEnter s h hc
     | leave => exact inv_mainLeave s h hc
     | park => exact h
@@ -707,6 +857,16 @@ theorem grows_step (s : State) (a : Act) : Grows s (step s a) := by
         split
         · exact grows_refl s
         · simp [Grows, List.append_assoc]
+      | par => simp only [coStep, postJob]; split <;> simp [Grows]
+    | parkPar => simp only [coStep, coParkPar]; exact grows_settle_of s _ rfl rfl
+    | wakePar d => simp only [coStep, wakePar]; split <;> simp [Grows]
+    | hop => simp only [coStep, coHop]; exact grows_settle_of s _ rfl rfl
+    | hopCur =>
+      simp only [coStep, coHopCur, coHop]
+      split
+      · exact grows_settle_of s _ rfl rfl
+      · exact grows_refl s
+    | job => exact grows_refl s
     | park => simp only [coStep, coPark]; exact grows_settle_of s _ rfl rfl
     | parkNext =>
       simp only [coStep, coParkNext]
@@ -716,7 +876,7 @@ theorem grows_step (s : State) (a : Act) : Grows s (step s a) := by
     | pause =>
       simp only [coStep, coPause]
       split <;> simp [Grows]
-    | start d => simp only [coStep, coStart]; split <;> simp [Grows]
+    | start d fut => simp only [coStep, coStart]; split <;> simp [Grows]
     | call d => simp only [coStep, coCall]; split <;> simp [Grows]
     | join d =>
       simp only [coStep, coJoin]
@@ -733,13 +893,34 @@ theorem grows_step (s : State) (a : Act) : Grows s (step s a) := by
   next hc =>
     cases a with
     | wake cs m rev =>
-      simp only [mainStep, mainWake]
+      cases m with
+      | par => simp only [mainStep, postJob]; split <;> simp [Grows]
+      | discard =>
+        simp only [mainStep, mainWake]
+        split
+        · simp [enqueue, Grows]
+        · split
+          · exact grows_refl s
+          · exact grows_settle_of s _ rfl rfl
+      | await =>
+        simp only [mainStep, mainWake]
+        split
+        · simp [enqueue, Grows]
+        · split
+          · exact grows_refl s
+          · exact grows_settle_of s _ rfl rfl
+    | wakePar d => simp only [mainStep, wakePar]; split <;> simp [Grows]
+    | job =>
+      simp only [mainStep, mainJob]
       split
-      · simp [enqueue, Grows]
       · split
-        · exact grows_refl s
         · exact grows_settle_of s _ rfl rfl
-    | start d =>
+        · exact grows_refl s
+      · exact grows_refl s
+    | parkPar => exact grows_refl s
+    | hop => exact grows_refl s
+    | hopCur => exact grows_refl s
+    | start d fut =>
       simp only [mainStep, mainStart]
       split
       · split <;> simp [Grows]
@@ -785,6 +966,29 @@ theorem settle_cur (s : State) (h : Mid s) (x : Nat) (hx : (settle s).cur = some
         simp at hx; subst hx
         have := h.handle_once y; simp [hr] at this
         right; grind
+      · simp at hx
+
+/-- sharper form: a ready coroutine chosen by `settle` had its handle in the ready queue or in the loop -/
+theorem settle_cur' (s : State) (h : Mid s) (x : Nat) (hx : (settle s).cur = some x) :
+    s.st x = St.stacked ∨ 0 < s.ready.count x + (loopIds s.base).count x := by
+  unfold settle at hx
+  split at hx
+  next p ps hc =>
+    simp at hx; subst hx
+    have := h.stacked_once p; simp [hc] at this
+    left; grind
+  next hc =>
+    split at hx
+    · simp at hx
+    · simp at hx
+    next hd rest prev hb =>
+      simp at hx; subst hx
+      right; simp [hb, loopIds]; omega
+    next prev hb =>
+      split at hx
+      next y q hr =>
+        simp at hx; subst hx
+        right; simp [hr]; omega
       · simp at hx
 
 theorem collect_running (st : Nat → St) (cs : List Nat) (i : Nat) :
